@@ -115,23 +115,33 @@ __CPROVER_assigns(__CPROVER_object_upto(res, NN * 8), __CPROVER_object_upto(tmp,
 ;
 // ---- NTT120 backend (vec_znx_dft.c): frame contracts of the q120 callees, n = nn; a DFT limb is 4*nn words, a big limb nn int128
 #include "q120/q120_ntt_private.h"
+static MODULE GMN; static q120_ntt_precomp GT_NTT; static q120_ntt_precomp GT_INTT;
 void q120_b_from_znx64_simple__c(uint64_t nn, q120b* const res, const int64_t* const x)
 __CPROVER_requires(nn <= MAXN) __CPROVER_requires(__CPROVER_is_fresh(res, nn * 32) && __CPROVER_is_fresh(x, nn * 8))
 __CPROVER_assigns(__CPROVER_object_upto(res, nn * 32));
 void q120_ntt_bb_avx2__c(const q120_ntt_precomp* const precomp, q120b* const data_ptr)
-__CPROVER_requires(__CPROVER_is_fresh(precomp, sizeof(*precomp)) && precomp->n <= MAXN)
+__CPROVER_requires((precomp == &GT_NTT || precomp == &GT_INTT) && precomp->n <= MAXN)
 __CPROVER_requires(__CPROVER_is_fresh(data_ptr, precomp->n * 32))
 __CPROVER_assigns(__CPROVER_object_upto(data_ptr, precomp->n * 32));
 void q120_intt_bb_avx2__c(const q120_ntt_precomp* const precomp, q120b* const data_ptr)
-__CPROVER_requires(__CPROVER_is_fresh(precomp, sizeof(*precomp)) && precomp->n <= MAXN)
+__CPROVER_requires((precomp == &GT_NTT || precomp == &GT_INTT) && precomp->n <= MAXN)
 __CPROVER_requires(__CPROVER_is_fresh(data_ptr, precomp->n * 32))
 __CPROVER_assigns(__CPROVER_object_upto(data_ptr, precomp->n * 32));
 void q120_b_to_znx128_simple__c(uint64_t nn, __int128_t* const res, const q120b* const x)
 __CPROVER_requires(nn <= MAXN) __CPROVER_requires(__CPROVER_is_fresh(res, nn * 16) && __CPROVER_is_fresh(x, nn * 32))
 __CPROVER_assigns(__CPROVER_object_upto(res, nn * 16));
-#define WF_NTT120 (__CPROVER_is_fresh(module, sizeof(MODULE)) && 2 <= NN && NN <= MAXN && IS_POW2(NN))
-#define WF_NTT120_A __CPROVER_is_fresh(module->mod.q120.p_ntt, sizeof(q120_ntt_precomp))
-#define WF_NTT120_B __CPROVER_is_fresh(module->mod.q120.p_intt, sizeof(q120_ntt_precomp))
+// The module and its two NTT tables are objects BUILT BY THE HARNESS (nn symbolic, table dimension assigned from it): with
+// is_fresh on members of the module's union CBMC 6.11 loses the constraint on the pointee (spurious call-site failures, the
+// reason these jobs were withdrawn at first); the contract only restates what the harness built.
+static const MODULE* ntt120_module(void) {
+  uint64_t nn = nondet_u64();
+  GMN.nn = nn; GMN.m = nn / 2; GT_NTT.n = nn; GT_INTT.n = nn;
+  GMN.mod.q120.p_ntt = &GT_NTT; GMN.mod.q120.p_intt = &GT_INTT;
+  return &GMN;
+}
+#define WF_NTT120 (module == &GMN && 2 <= NN && NN <= MAXN && IS_POW2(NN))
+#define WF_NTT120_A (module->mod.q120.p_ntt == &GT_NTT)
+#define WF_NTT120_B (module->mod.q120.p_intt == &GT_INTT)
 #define WF_NTT120_CA (module->mod.q120.p_ntt->n == NN)
 #define WF_NTT120_CB (module->mod.q120.p_intt->n == NN)
 // only the table the function uses is allocated, and in ONE requires clause with the module itself: with the is_fresh of a
@@ -150,7 +160,13 @@ __CPROVER_ensures(ENS_ZERO_ROWS_W(res, 4)) /*@ntt120_dft_rows_beyond_input_are_z
 ;
 void ntt120_vec_znx_idft__c(const MODULE* module, VEC_ZNX_BIG* res, uint64_t res_size, const VEC_ZNX_DFT* a_dft, uint64_t a_size, uint8_t* tmp)
 __CPROVER_requires(WF_NTT120 && WF_NTT120_B && WF_NTT120_CB) __CPROVER_requires(res_size == RS && a_size == AS && REQ_G)
+#if ALIAS == 1
+/* in place (C13): a big limb is N*16 bytes, a DFT limb N*32 bytes, both vectors start at the same address */
+#define NTT_INPLACE_BYTES ((RS * 16 > AS * 32 ? RS * 16 : AS * 32) * NN)
+__CPROVER_requires(__CPROVER_is_fresh(res, NTT_INPLACE_BYTES) && a_dft == (const VEC_ZNX_DFT*)res && __CPROVER_is_fresh(tmp, NN * 32))
+#else
 __CPROVER_requires(__CPROVER_is_fresh(res, RS * NN * 16) && __CPROVER_is_fresh(a_dft, AS * NN * 32) && __CPROVER_is_fresh(tmp, NN * 32))  /* tmp: ntt120_vec_znx_idft_tmp_bytes_avx */
+#endif
 __CPROVER_assigns(__CPROVER_object_upto(res, RS * NN * 16), __CPROVER_object_upto(tmp, NN * 32))
 __CPROVER_ensures(ENS_ZERO_ROWS_W(res, 2)) /*@ntt120_idft_rows_beyond_input_are_zero:C11,C18,C15*/
 ;
@@ -160,9 +176,9 @@ __CPROVER_requires(__CPROVER_is_fresh(res, RS * NN * 16) && __CPROVER_is_fresh(a
 __CPROVER_assigns(__CPROVER_object_upto(res, RS * NN * 16), __CPROVER_object_upto(a_dft, SMIN * NN * 32))
 __CPROVER_ensures(ENS_ZERO_ROWS_W(res, 2)) /*@ntt120_idft_tmp_a_rows_beyond_input_are_zero:C11,C18,C15*/
 ;
-void h_ntt120_dft(void) { const MODULE* m; VEC_ZNX_DFT* r; const int64_t* a; uint64_t rs, as, asl; G = nondet_u64(); GL = nondet_u64(); ntt120_vec_znx_dft_avx(m, r, rs, a, as, asl); VACUITY_CANARY(); }
-void h_ntt120_idft(void) { const MODULE* m; VEC_ZNX_BIG* r; const VEC_ZNX_DFT* a; uint64_t rs, as; uint8_t* t; G = nondet_u64(); GL = nondet_u64(); ntt120_vec_znx_idft_avx(m, r, rs, a, as, t); VACUITY_CANARY(); }
-void h_ntt120_idft_tmp_a(void) { const MODULE* m; VEC_ZNX_BIG* r; VEC_ZNX_DFT* a; uint64_t rs, as; G = nondet_u64(); GL = nondet_u64(); ntt120_vec_znx_idft_tmp_a_avx(m, r, rs, a, as); VACUITY_CANARY(); }
+void h_ntt120_dft(void) { const MODULE* m = ntt120_module(); VEC_ZNX_DFT* r; const int64_t* a; uint64_t rs, as, asl; G = nondet_u64(); GL = nondet_u64(); ntt120_vec_znx_dft_avx(m, r, rs, a, as, asl); VACUITY_CANARY(); }
+void h_ntt120_idft(void) { const MODULE* m = ntt120_module(); VEC_ZNX_BIG* r; const VEC_ZNX_DFT* a; uint64_t rs, as; uint8_t* t; G = nondet_u64(); GL = nondet_u64(); ntt120_vec_znx_idft_avx(m, r, rs, a, as, t); VACUITY_CANARY(); }
+void h_ntt120_idft_tmp_a(void) { const MODULE* m = ntt120_module(); VEC_ZNX_BIG* r; VEC_ZNX_DFT* a; uint64_t rs, as; G = nondet_u64(); GL = nondet_u64(); ntt120_vec_znx_idft_tmp_a_avx(m, r, rs, a, as); VACUITY_CANARY(); }
 
 #define GH() do { G = nondet_u64(); GL = nondet_u64(); } while (0)
 void h_dft(void) { const MODULE* m; VEC_ZNX_DFT* r; const int64_t* a; uint64_t rs, as, asl; GH(); fft64_vec_znx_dft(m, r, rs, a, as, asl); VACUITY_CANARY(); }
